@@ -293,7 +293,9 @@ func (v *VecDense) Norm(norm float64) float64 {
 func (v *VecDense) ScaleVec(alpha float64, a Vector) {
 	n := a.Len()
 
-	if v == a {
+	// A vector and its transpose hold the same elements in the same order.
+	aU, _ := untransposeExtract(a)
+	if v == aU {
 		if v.mat.Inc == 1 {
 			f64.ScalUnitary(alpha, v.mat.Data)
 			return
@@ -304,7 +306,7 @@ func (v *VecDense) ScaleVec(alpha float64, a Vector) {
 
 	v.reuseAsNonZeroed(n)
 
-	if rv, ok := a.(RawVectorer); ok {
+	if rv, ok := aU.(RawVectorer); ok {
 		mat := rv.RawVector()
 		v.checkOverlap(mat)
 		if v.mat.Inc == 1 && mat.Inc == 1 {
